@@ -522,6 +522,10 @@ class Instantiator:
         if td.kind == "function":
             rt, bare, na = self.resolve(c.result, env)
             j.update(isFunction=True, resultTy=self.inst(rt))
+            # annotation mask as the generated registry reports it: bit = position in the kernel's standard annotation list
+            std = ["any", "internal", "kphp", "read", "readwrite", "write"]
+            if getattr(c, "modifier", None) in std:
+                j["annotations"] = 1 << std.index(c.modifier)
             if na:
                 j["resultNatArgs"] = na
 
